@@ -50,6 +50,11 @@
 # define main c13_tool_main
 # include "dzone.c"
 # undef main
+#elif defined C13_TOOL_dtest
+# define C13_TOOL "dtest"
+# define main c13_tool_main
+# include "dtest.c"
+# undef main
 #else
 # error "compile with -DC13_TOOL_<tool>"
 #endif
@@ -124,6 +129,39 @@ static const char *const A_HMS6[NALPHA] = {
 	"123456", "000000", "235959", "240000", "120000", "foo", "", "010203 040506", X235 " 235959", "12345",
 };
 
+/* date-only, date-time and time-only operands mixed (ddiff formats that mix day and time units) */
+static const char *const A_MIX[NALPHA] = {
+	"2000-01-05", "2000-01-02T12:30:15", "2000-01-01", "1999-12-31T23:59:59", "2000-03-01T00:00:01", "2000-02-29", "12:30:15", "foo", "", "2001-01-01T06:00:00",
+};
+/* other calendars: texts that share the month / week / day-of-year / business-day number but
+ * differ in the year, in non-chronological order */
+static const char *const A_YMCW[NALPHA] = {
+	"2022-03-01-01", "2021-03-01-01", "2020-03-05-07", "2022-03-05-02", "2019-02-04-05", "2022-02-01-01", "foo", "", "2020-12-05-04", "2021-03-04-03",
+};
+static const char *const A_YWD[NALPHA] = {
+	"2020-W53-4", "2015-W53-1", "2012-W10-5", "2021-W52-7", "2009-W53-5", "2012-W01-1", "foo", "", "2011-W52-7", "2013-W10-5",
+};
+static const char *const A_YD[NALPHA] = {
+	"2012-060", "2011-060", "2012-366", "2013-365", "2011-001", "2012-001", "foo", "", "2010-060", "2012-061",
+};
+static const char *const A_BIZDA[NALPHA] = {
+	"2012-03-01b", "2011-03-01b", "2012-03-22b", "2012-02-21b", "2010-03-23b", "2012-12-21b", "foo", "", "2011-02-20b", "2012-03-02b",
+};
+/* two input formats that overlap: values only the first reads, only the second reads, ambiguous ones */
+static const char *const A_DMY_MDY[NALPHA] = {
+	"13/02/2012", "02/13/2012", "03/02/2012", "01/01/2012", "31/12/2011", "12/31/2011", "foo", "", "05/06/2012", "29/02/2012",
+};
+static const char *const A_YMD_YDM[NALPHA] = {
+	"20120213", "20121302", "20120302", "20120101", "20121231", "20123112", "foo", "", "20120506", "20120229",
+};
+static const char *const A_HM_MS[NALPHA] = {
+	"12:30", "45:30", "23:59", "59:59", "00:00", "24:00", "foo", "", "07:08", "30:45",
+};
+
+#define K_MIXED	"mixed-operands"
+#define K_CAL	"calendar-history"
+#define K_MFMT	"multi-format"
+
 enum { M_ARGS = 1, M_STDIN = 2 };
 
 struct inv_s {
@@ -131,6 +169,7 @@ struct inv_s {
 	const char *argv[8];		/* after argv[0], NULL-terminated */
 	int modes;
 	const char *const *alpha;
+	const char *kind;		/* part of the class key, NULL for the basic list */
 };
 
 static const struct inv_s invs[] = {
@@ -157,7 +196,31 @@ static const struct inv_s invs[] = {
 	{"-i-yj-S", {"-i", "%Y%j", "-S", NULL}, M_STDIN, A_YJ},
 	{"-i-hms6", {"-i", "%H%M%S", NULL}, M_ARGS | M_STDIN, A_HMS6},
 	{"-i-hms6-S", {"-i", "%H%M%S", "-S", NULL}, M_STDIN, A_HMS6},
+	{"ymcw", {"-f", "%F %a", NULL}, M_ARGS | M_STDIN, A_YMCW, K_CAL},
+	{"ymcw-f-ymcw", {"-f", "ymcw", NULL}, M_ARGS | M_STDIN, A_YMCW, K_CAL},
+	{"ywd", {"-f", "%F %a", NULL}, M_ARGS | M_STDIN, A_YWD, K_CAL},
+	{"yd-f-ywd", {"-f", "ywd", NULL}, M_ARGS | M_STDIN, A_YD, K_CAL},
+	{"bizda", {"-f", "%F", NULL}, M_ARGS | M_STDIN, A_BIZDA, K_CAL},
+	{"-i-dmy-i-mdy", {"-i", "%d/%m/%Y", "-i", "%m/%d/%Y", NULL}, M_ARGS | M_STDIN, A_DMY_MDY, K_MFMT},
+	{"-i-mdy-i-dmy-S", {"-i", "%m/%d/%Y", "-i", "%d/%m/%Y", "-S", NULL}, M_STDIN, A_DMY_MDY, K_MFMT},
+	{"-i-ymd-i-ydm", {"-i", "%Y%m%d", "-i", "%Y%d%m", NULL}, M_ARGS | M_STDIN, A_YMD_YDM, K_MFMT},
+	{"-i-hm-i-ms", {"-i", "%H:%M", "-i", "%M:%S", NULL}, M_ARGS | M_STDIN, A_HM_MS, K_MFMT},
 #elif defined C13_TOOL_dadd
+	{"ymcw+1d", {"+1d", NULL}, M_STDIN, A_YMCW, K_CAL},
+	{"ymcw+1d-53w-1d", {"--", "+1d", "-53w", "-1d", NULL}, M_STDIN, A_YMCW, K_CAL},
+	{"ymcw+1mo", {"+1mo", NULL}, M_STDIN, A_YMCW, K_CAL},
+	{"ymcw-1w", {"--", "-1w", NULL}, M_STDIN, A_YMCW, K_CAL},
+	{"ywd+1w", {"+1w", NULL}, M_STDIN, A_YWD, K_CAL},
+	{"ywd+1d", {"+1d", NULL}, M_STDIN, A_YWD, K_CAL},
+	{"ywd+1mo+1mo", {"+1mo", "+1mo", NULL}, M_STDIN, A_YWD, K_CAL},
+	{"yd+1d", {"+1d", NULL}, M_STDIN, A_YD, K_CAL},
+	{"yd+1mo", {"+1mo", NULL}, M_STDIN, A_YD, K_CAL},
+	{"bizda+1b", {"+1b", NULL}, M_STDIN, A_BIZDA, K_CAL},
+	{"bizda+1b-1b", {"--", "+1b", "-1b", NULL}, M_STDIN, A_BIZDA, K_CAL},
+	{"bizda+1mo", {"+1mo", NULL}, M_STDIN, A_BIZDA, K_CAL},
+	{"-i-dmy-i-mdy+1d", {"-i", "%d/%m/%Y", "-i", "%m/%d/%Y", "+1d", NULL}, M_STDIN, A_DMY_MDY, K_MFMT},
+	{"-i-ymd-i-ydm+1mo", {"-i", "%Y%m%d", "-i", "%Y%d%m", "+1mo", NULL}, M_STDIN, A_YMD_YDM, K_MFMT},
+	{"-i-hm-i-ms+1h", {"-i", "%H:%M", "-i", "%M:%S", "+1h", NULL}, M_STDIN, A_HM_MS, K_MFMT},
 	{"-i-ymd8+1d", {"-i", "%Y%m%d", "+1d", NULL}, M_STDIN, A_YMD8},
 	{"-i-ymd8-S+1mo", {"-i", "%Y%m%d", "-S", "+1mo", NULL}, M_STDIN, A_YMD8},
 	{"-i-epoch+1h", {"-i", "%s", "+1h", NULL}, M_STDIN, A_EPOCH},
@@ -175,6 +238,13 @@ static const struct inv_s invs[] = {
 	{"durs:datetime", {"2012-03-31T12:00:00", NULL}, M_STDIN, A_DUR},
 	{"durs:date-f", {"-f", "%a %F", "2012-02-29", NULL}, M_STDIN, A_DUR},
 #elif defined C13_TOOL_dround
+	{"ymcw-Sat", {"Sat", NULL}, M_STDIN, A_YMCW, K_CAL},
+	{"ymcw+1mo", {"+1mo", NULL}, M_STDIN, A_YMCW, K_CAL},
+	{"ywd-Mar", {"Mar", NULL}, M_STDIN, A_YWD, K_CAL},
+	{"yd-Sat", {"Sat", NULL}, M_STDIN, A_YD, K_CAL},
+	{"bizda-+1mo", {"+1mo", NULL}, M_STDIN, A_BIZDA, K_CAL},
+	{"-i-dmy-i-mdy-Sat", {"-i", "%d/%m/%Y", "-i", "%m/%d/%Y", "Sat", NULL}, M_STDIN, A_DMY_MDY, K_MFMT},
+	{"-i-ymd-i-ydm-+1mo", {"-i", "%Y%m%d", "-i", "%Y%d%m", "+1mo", NULL}, M_STDIN, A_YMD_YDM, K_MFMT},
 	{"-i-ymd8-Sat", {"-i", "%Y%m%d", "Sat", NULL}, M_STDIN, A_YMD8},
 	{"-i-ymd8-S-+1mo", {"-i", "%Y%m%d", "-S", "+1mo", NULL}, M_STDIN, A_YMD8},
 	{"Sat", {"Sat", NULL}, M_STDIN, A_DATE},
@@ -186,6 +256,18 @@ static const struct inv_s invs[] = {
 	{"-S-Sat", {"-S", "Sat", NULL}, M_STDIN, A_DATE},
 	{"--zone-Berlin-/1h", {"--zone", "Europe/Berlin", "/1h", NULL}, M_STDIN, A_DATE},
 #elif defined C13_TOOL_ddiff
+	{"mix-d-H-M-S", {"-f", "%d %H %M %S", "2000-01-01T00:00:00", NULL}, M_ARGS | M_STDIN, A_MIX, K_MIXED},
+	{"mix-dd-Ss", {"-f", "%dd %Ss", "2000-01-01T00:00:00", NULL}, M_ARGS | M_STDIN, A_MIX, K_MIXED},
+	{"mix-w-d-H", {"-f", "%w %d %H", "2000-01-01T00:00:00", NULL}, M_ARGS | M_STDIN, A_MIX, K_MIXED},
+	{"mix-S", {"-f", "%S", "2000-01-01T00:00:00", NULL}, M_ARGS | M_STDIN, A_MIX, K_MIXED},
+	{"mix-d", {"-f", "%d", "2000-01-01T00:00:00", NULL}, M_ARGS | M_STDIN, A_MIX, K_MIXED},
+	{"mix-default", {"2000-01-01T12:00:00", NULL}, M_ARGS | M_STDIN, A_MIX, K_MIXED},
+	{"ymcw", {"2022-03-01-01", NULL}, M_ARGS | M_STDIN, A_YMCW, K_CAL},
+	{"ywd-f-w-d", {"-f", "%w %d", "2012-W10-5", NULL}, M_ARGS | M_STDIN, A_YWD, K_CAL},
+	{"yd", {"2012-060", NULL}, M_ARGS | M_STDIN, A_YD, K_CAL},
+	{"bizda-f-b", {"-f", "%b", "2012-03-01b", NULL}, M_ARGS | M_STDIN, A_BIZDA, K_CAL},
+	{"-i-dmy-i-mdy", {"-i", "%d/%m/%Y", "-i", "%m/%d/%Y", "01/03/2012", NULL}, M_ARGS | M_STDIN, A_DMY_MDY, K_MFMT},
+	{"-i-ymd-i-ydm", {"-i", "%Y%m%d", "-i", "%Y%d%m", "20120301", NULL}, M_ARGS | M_STDIN, A_YMD_YDM, K_MFMT},
 	{"-i-ymd8", {"-i", "%Y%m%d", "20120301", NULL}, M_ARGS | M_STDIN, A_YMD8},
 	{"ref-date", {"2012-03-01", NULL}, M_ARGS | M_STDIN, A_DATE},
 	{"ref-datetime", {"2012-03-01T12:00:00", NULL}, M_ARGS | M_STDIN, A_DATE},
@@ -194,6 +276,9 @@ static const struct inv_s invs[] = {
 	{"--from-zone-NY", {"--from-zone", "America/New_York", "2012-03-01T12:00:00", NULL}, M_ARGS | M_STDIN, A_DATE},
 	{"-i-dmy", {"-i", "%d/%m/%Y", "01/03/2012", NULL}, M_ARGS | M_STDIN, A_DMY},
 #elif defined C13_TOOL_dgrep
+	{"-i-dmy-i-mdy", {"-i", "%d/%m/%Y", "-i", "%m/%d/%Y", ">=2012-02-10", NULL}, M_STDIN, A_DMY_MDY, K_MFMT},
+	{"-i-ymd-i-ydm", {"-i", "%Y%m%d", "-i", "%Y%d%m", "<2012-03-01", NULL}, M_STDIN, A_YMD_YDM, K_MFMT},
+	{"ymcw", {">=2021-03-01", NULL}, M_STDIN, A_YMCW, K_CAL},
 	{"-i-ymd8", {"-i", "%Y%m%d", ">=2012-03-01", NULL}, M_STDIN, A_YMD8},
 	{">=date", {">=2012-03-01", NULL}, M_STDIN, A_DATE},
 	{"<date", {"<2012-03-01", NULL}, M_STDIN, A_DATE},
@@ -209,6 +294,9 @@ static const struct inv_s invs[] = {
 	{"--prev-NY", {"--prev", "America/New_York", NULL}, M_ARGS, A_DZ},
 	{"--next--prev-Berlin+NY", {"--next", "--prev", "Europe/Berlin", "America/New_York", NULL}, M_ARGS, A_DZ},
 	{"--from-zone-NY-Berlin", {"--from-zone", "America/New_York", "Europe/Berlin", NULL}, M_ARGS, A_DZ},
+#elif defined C13_TOOL_dtest
+	/* dtest takes exactly two values: no sequences, see multi_format_pairs() */
+	{"(none)", {NULL}, 0, A_DT},
 #endif
 };
 #define NINV	((int)(sizeof(invs) / sizeof(*invs)))
@@ -360,7 +448,8 @@ judge(int ii, int mode, const int *seq, int n, int replay)
 	cmd_text(iv, mode, seq, n, cmd, sizeof(cmd));
 	ex_outcome(ex_hash_mix(ex_hash(o.out, o.len), (uint64_t)ii));
 	if (o.ended) {
-		snprintf(key, sizeof(key), "tools %s inv=%s mode=%s %s", C13_TOOL, iv->label, mode == M_ARGS ? "args" : "stdin",
+		snprintf(key, sizeof(key), "tools %s inv=%s mode=%s%s%s %s", C13_TOOL, iv->label, mode == M_ARGS ? "args" : "stdin",
+			 iv->kind ? " kind=" : "", iv->kind ? iv->kind : "",
 			 o.ended == 1 ? "does-not-terminate" : o.ended == 2 ? "dies-of-a-signal" : "output-cap");
 		ex_viol(key, ord, cas, cmd, "the run on the sequence %s (signal/status %d) although each single-value run ends normally",
 			o.ended == 1 ? "does not terminate within 40 s" : o.ended == 2 ? "dies of a signal" : "overruns the output cap", o.status);
@@ -390,8 +479,8 @@ judge(int ii, int mode, const int *seq, int n, int replay)
 		for (el = 0, acc = 0; el < n - 1 && pos >= acc + single[seq[el]].len; el++) {
 			acc += single[seq[el]].len;
 		}
-		snprintf(key, sizeof(key), "tools %s inv=%s mode=%s output-differs value#%d", C13_TOOL, iv->label,
-			 mode == M_ARGS ? "args" : "stdin", seq[el]);
+		snprintf(key, sizeof(key), "tools %s inv=%s mode=%s%s%s output-differs value#%d", C13_TOOL, iv->label,
+			 mode == M_ARGS ? "args" : "stdin", iv->kind ? " kind=" : "", iv->kind ? iv->kind : "", seq[el]);
 		printable(o.out, o.len, a, sizeof(a));
 		printable(exp, elen, b, sizeof(b));
 		ex_viol(key, ord, cas, cmd, "sequence run prints '%s'; the single-value runs concatenated print '%s'", a, b);
@@ -774,6 +863,141 @@ prefix_zones(void)
 }
 #endif
 
+#if defined C13_TOOL_dtest
+/* ---- dtest with two overlapping input formats: all ordered pairs of the alphabet ----
+ * What dtest answers for (A, B) must be what two independent parses imply: each value is
+ * parsed alone in a process of its own (dt_io_strpdt with the same format list), printed
+ * in its canonical form, and the two canonical texts are compared by a dtest run without
+ * input formats. */
+struct mf_s {
+	const char *label;
+	const char *f1, *f2;
+	const char *const *alpha;
+};
+static const struct mf_s mfs[] = {
+	{"-i-dmy-i-mdy", "%d/%m/%Y", "%m/%d/%Y", A_DMY_MDY},
+	{"-i-ymd-i-ydm", "%Y%m%d", "%Y%d%m", A_YMD_YDM},
+	{"-i-hm-i-ms", "%H:%M", "%M:%S", A_HM_MS},
+};
+#define NMF	((int)(sizeof(mfs) / sizeof(*mfs)))
+static const char *const mf_ops[] = {"--cmp", "--lt", "--eq", "--ge"};
+#define NMFOP	4
+
+static int
+parse_alone_main(int argc, char *argv[])
+{
+	struct dt_dt_s d = dt_io_strpdt(argv[1], argv + 2, (size_t)(argc - 2), NULL);
+	char buf[96];
+	if (dt_unk_p(d)) {
+		return 3;
+	}
+	dt_strfdt(buf, sizeof(buf), NULL, d);
+	puts(buf);
+	return 0;
+}
+
+static char mf_canon[NALPHA][96];
+static int mf_ok[NALPHA];
+
+static void
+mf_singles(const struct mf_s *m)
+{
+	for (int v = 0; v < NALPHA; v++) {
+		const char *argv[4] = {"parse", m->alpha[v], m->f1, m->f2};
+		struct fs_opts fo;
+		struct fs_result r;
+		EX_CTR(c_eval, "evaluations");
+		memset(&fo, 0, sizeof(fo));
+		fo.now = FAKE_NOW;
+		fo.env = run_env;
+		fo.timeout_s = 20;
+		fs_run(parse_alone_main, 4, argv, &fo, &r);
+		++*c_eval;
+		mf_ok[v] = r.exited && r.status == 0 && r.outlen > 1 && r.outlen < sizeof(mf_canon[v]);
+		if (mf_ok[v]) {
+			memcpy(mf_canon[v], r.out, r.outlen - 1);
+			mf_canon[v][r.outlen - 1] = '\0';
+		}
+		fs_free(&r);
+	}
+}
+
+static int
+judge_mf_pair(int mi, int oi, int a, int b, int replay)
+{
+	const struct mf_s *m = mfs + mi;
+	const char *argv[10];
+	int argc = 0, bad = 0;
+	struct out_s o, e;
+	char key[256], cas[64], cmd[512];
+	EX_CTR(c_trans, "transitions");
+	EX_CTR(c_mf, "multi_format_pairs");
+	EX_CTR(c_skip, "skipped:dtest pair with a value neither input format reads");
+	EX_CTR(c_nontriv, "nontrivial");
+
+	if (!mf_ok[a] || !mf_ok[b]) {
+		++*c_skip;
+		return 0;
+	}
+	argv[argc++] = C13_TOOL;
+	argv[argc++] = "-i";
+	argv[argc++] = m->f1;
+	argv[argc++] = "-i";
+	argv[argc++] = m->f2;
+	argv[argc++] = mf_ops[oi];
+	argv[argc++] = m->alpha[a];
+	argv[argc++] = m->alpha[b];
+	run_raw(argv, argc, NULL, 0, &o, 20, 1U << 16);
+	argc = 0;
+	argv[argc++] = C13_TOOL;
+	argv[argc++] = mf_ops[oi];
+	argv[argc++] = mf_canon[a];
+	argv[argc++] = mf_canon[b];
+	run_raw(argv, argc, NULL, 0, &e, 20, 1U << 16);
+	++*c_trans;
+	++*c_mf;
+	*c_nontriv += a != b;
+	snprintf(cas, sizeof(cas), "M %d %d %d %d", mi, oi, a, b);
+	snprintf(cmd, sizeof(cmd), "dtest -i '%s' -i '%s' %s %s %s; echo $?", m->f1, m->f2, mf_ops[oi], m->alpha[a], m->alpha[b]);
+	ex_outcome(ex_hash_mix((uint64_t)(o.ended * 100 + o.status), (uint64_t)(mi * 1000 + oi * 100 + a * 10 + b)));
+	if (o.ended || e.ended || o.status != e.status) {
+		snprintf(key, sizeof(key), "tools %s inv=%s%s mode=args kind=" K_MFMT " status-differs", C13_TOOL, m->label, mf_ops[oi]);
+		ex_viol(key, a * NALPHA + b, cas, cmd, "exit status %d%s; each value parsed alone reads '%s' and '%s', for which dtest %s exits with %d", o.status,
+			o.ended ? " (abnormal end)" : "", mf_canon[a], mf_canon[b], mf_ops[oi], e.status);
+		bad = 1;
+	}
+	if (replay) {
+		printf("  %s %s -> status %d; alone the values read '%s' and '%s' -> status %d\n", bad ? "FAIL" : "ok", cmd, o.status, mf_canon[a], mf_canon[b], e.status);
+	}
+	free(o.out);
+	free(e.out);
+	return bad;
+}
+
+static void
+multi_format_pairs(void)
+{
+	uint64_t slice = 2000000;
+	for (int mi = 0; mi < NMF; mi++) {
+		int have = 0;
+		for (int oi = 0; oi < NMFOP; oi++) {
+			for (int a = 0; a < NALPHA; a++) {
+				if (!ex_mine(slice++)) {
+					continue;
+				}
+				if (!have) {
+					mf_singles(mfs + mi);
+					have = 1;
+				}
+				for (int b = 0; b < NALPHA; b++) {
+					judge_mf_pair(mi, oi, a, b, 0);
+				}
+			}
+		}
+	}
+}
+#endif
+
 static void
 do_singles(int ii, int mode)
 {
@@ -816,6 +1040,17 @@ main(int argc, char *argv[])
 		bad = v >= 0 ? judge_long(ii, mode, &v, 1, n, 1) : judge_long(ii, mode, cyc, NALPHA, n, 1);
 		return ex_replay_result(bad, "%s", ex.cas);
 	}
+#if defined C13_TOOL_dtest
+	if (ex.cas && ex.cas[0] == 'M') {
+		int mi, oi, a, b, bad;
+		if (sscanf(ex.cas, "M %d %d %d %d", &mi, &oi, &a, &b) != 4 || mi < 0 || mi >= NMF || oi < 0 || oi >= NMFOP || a < 0 || a >= NALPHA || b < 0 || b >= NALPHA) {
+			return ex_replay_result(1, "bad case '%s'", ex.cas);
+		}
+		mf_singles(mfs + mi);
+		bad = judge_mf_pair(mi, oi, a, b, 1);
+		return ex_replay_result(bad, "%s", ex.cas);
+	}
+#endif
 #if defined C13_TOOL_dzone
 	if (ex.cas && ex.cas[0] == 'Z') {
 		int opt, nz, zi[3], bad;
@@ -934,5 +1169,10 @@ main(int argc, char *argv[])
 	if (!ex_expired()) {
 		prefix_zones();
 	}
+#if defined C13_TOOL_dtest
+	if (!ex_expired()) {
+		multi_format_pairs();
+	}
+#endif
 	return ex_finish();
 }
